@@ -109,7 +109,9 @@ RULE_DISP = ("sessions of public-API operations (register_*_hook on classes/NewT
              "and 13 predicates; a case is non-trivial if it has >= 3 operations of >= 2 kinds; distinct = distinct sha1 of the step list")
 
 REGISTRY = {
-    "C02": {"props_file": "Props/C02.v", "files": CORE_CONV + ["Proofs/ConvSound.v", "Props/C02.v"], "run": _conv("C02", 40), "rule": RULE_CONV, "t1_sections": ["gen"]},
+    "C01": {"props_file": "Props/C01.v", "files": CORE_CONV + ["Proofs/UnstructProofs.v", "Proofs/ClassRoundtrip.v", "Proofs/ConvRoundtrip.v", "Proofs/ConvCfg.v", "Props/C01.v"],
+            "run": _conv("C01", 40), "rule": RULE_CONV, "t1_sections": ["gen"]},
+    "C02": {"props_file": "Props/C02.v", "files": CORE_CONV + ["Proofs/ConvSound.v", "Proofs/ConvCfg.v", "Props/C02.v"], "run": _conv("C02", 40), "rule": RULE_CONV, "t1_sections": ["gen"]},
     "C04": {"props_file": "Props/C04.v", "files": CORE_TPL + ["Props/C04.v"], "run": _c04, "rule": RULE_TPL, "t1_sections": ["gen"]},
     "C09": {"props_file": "Props/C09.v", "files": CORE_TPL + ["Proofs/UnstructProofs.v", "Props/C09.v"], "run": _c09, "rule": RULE_TPL, "t1_sections": ["gen"]},
     "C20": {"props_file": "Props/C20.v", "files": ["Model/Base.v", "Model/FieldConv.v", "Props/C20.v"], "run": _c20, "t1_sections": [],
